@@ -60,7 +60,7 @@ def execute(ctx, case):
     rng = np.random.default_rng(case["_seed"])
     allv = np.concatenate([pos, neg])
     lo_, hi_ = float(allv.min()), float(allv.max())
-    span = max(1.0, hi_ - lo_, abs(lo_), abs(hi_))
+    span = max(hi_ - lo_, 1e-300)  # interpolation error scales with the spread of the scored samples (plus ulps of their magnitude, see close_thr)
     via = case.get("via", "ctor")
     if via.startswith("swap_of"):
         # the object under test is obtained by swap() from its mirror image - a history, not a constructor call; with
